@@ -1789,3 +1789,65 @@ Theorem C02_bridge_class_file_every_tree_example : exists bs aux d,
   X12.BridgeKinds.dclass_side6 true C01.Mutf8.mutf8_dec d = true.
 Proof. exact X12.BridgeKinds.side_example. Qed.
 Print Assumptions C02_bridge_class_file_every_tree_example.
+
+(* ================================================================================================ *)
+(* Round 6, eleventh layer — the code-array equation with frames (coq/X12/BridgeFramesEq.v). *)
+From FB Require X12.BridgeFramesEq.
+
+(* READING WHAT write_code_f WRITES, FRAMES INCLUDED: C01's read_code on the written code array, the written tables and the
+   offset_deltas of the written StackMapTable (any delta list whose running offsets — C01's frame_offsets — are the offsets
+   C02's decoder finds in the written attribute) is the label-free form of the translated body with the tree's frames
+   attached to the instructions fidx (tables with t_frames := fidx chs 0 b fs).  One equation composing
+   C02_bridge_write_read, C02_frames_written and C02_bridge_frames_attach with C01's read_encode_gen *)
+Theorem C02_bridge_write_read_frames : forall hasmax b last tb fs w Wd rt sm nl lines,
+  unique_labels b last -> frames_ok fs = true -> length fs = length b ->
+  write_code_f hasmax b last tb fs = Some (OK (w, Wd, rt, Some sm)) ->
+  let chs := chs_run Wd 0%N 0 [] b in
+  X12.BridgeDefs.body_in chs b = true -> X12.BridgeDefs.refs_carried b = true -> X12.BridgeDefs.tables_carried b tb = true ->
+  exists ds,
+    dec_stack_map sm = Some ds /\ tree_frames (labpos chs 0 b last) (positions chs 0 b) fs = Some ds /\
+    forall deltas, C01.Model.frame_offsets true 0 deltas = Ok (map (fun e => Z.to_N (fst e)) ds) ->
+      C01.Model.read_code (X12.BridgeFramesEq.with_frames (X12.BridgeDefs.code_in_of_written w rt nl lines) deltas)
+      = Ok (C01.Theory4.expected (X12.BridgeDefs.tr_body chs b last)
+              (X12.BridgeFramesEq.with_tframes (X12.BridgeDefs.tr_tables (X12.BridgeDefs.T_of chs b last) tb nl lines)
+                 (X12.BridgeAttach.fidx chs 0 b fs))).
+Proof. exact X12.BridgeFramesEq.bridge_write_read_frames. Qed.
+Print Assumptions C02_bridge_write_read_frames.
+
+(* … with the deltas C01's own frame format reads from the written attribute: for the value v that C01's StackMapTable
+   format returns (smt_rel, the conclusion of C02_bridge_stack_map_table, for the resolved frames l at the decoded
+   offsets), the deltas C01 extracts from v (frame_delta) satisfy the equation *)
+Theorem C02_bridge_write_read_frames_as_read : forall hasmax b last tb fs w Wd rt sm nl lines,
+  unique_labels b last -> frames_ok fs = true -> length fs = length b ->
+  write_code_f hasmax b last tb fs = Some (OK (w, Wd, rt, Some sm)) ->
+  let chs := chs_run Wd 0%N 0 [] b in
+  X12.BridgeDefs.body_in chs b = true -> X12.BridgeDefs.refs_carried b = true -> X12.BridgeDefs.tables_carried b tb = true ->
+  exists ds,
+    dec_stack_map sm = Some ds /\
+    forall dec l v, map fst l = map fst ds -> X12.BridgeFrames.smt_rel dec l v ->
+      exists vs deltas,
+        v = C01.Fmt.VAttr C01.Formats.a_StackMapTable (C01.Fmt.VList vs) /\
+        C01.Pool.map_res C01.ClassFile.frame_delta vs = Ok deltas /\
+        C01.Model.read_code (X12.BridgeFramesEq.with_frames (X12.BridgeDefs.code_in_of_written w rt nl lines) deltas)
+        = Ok (C01.Theory4.expected (X12.BridgeDefs.tr_body chs b last)
+                (X12.BridgeFramesEq.with_tframes (X12.BridgeDefs.tr_tables (X12.BridgeDefs.T_of chs b last) tb nl lines)
+                   (X12.BridgeAttach.fidx chs 0 b fs))).
+Proof. exact X12.BridgeFramesEq.bridge_write_read_smt. Qed.
+Print Assumptions C02_bridge_write_read_frames_as_read.
+
+(* non-vacuity: C02's frames example (new #9; ifeq L2; L2: nop; return — a same frame, an append frame with an object and
+   an uninitialized local, a full frame): deltas 0, 5, 0; read_code returns the translated body with frame 0 on
+   instruction 0, frame 1 on instruction 2, frame 2 on instruction 3 and none on the conditional *)
+Theorem C02_bridge_write_read_frames_example : exists w Wd rt sm,
+  write_code_f true exf_body None exf_tables exf_frames = Some (OK (w, Wd, rt, Some sm)) /\
+  let chs := chs_run Wd 0%N 0 [] exf_body in
+  X12.BridgeDefs.body_in chs exf_body = true /\ X12.BridgeAttach.fidx chs 0 exf_body exf_frames = [0; 2; 3]%nat /\
+  C01.Model.read_code (X12.BridgeFramesEq.with_frames (X12.BridgeDefs.code_in_of_written w rt 0 []) [0; 5; 0]%N)
+  = Ok (C01.Theory4.expected (X12.BridgeDefs.tr_body chs exf_body None)
+          (X12.BridgeFramesEq.with_tframes (X12.BridgeDefs.tr_tables (X12.BridgeDefs.T_of chs exf_body None) exf_tables 0 []) [0; 2; 3]%nat)) /\
+  map (fun x => snd (fst x))
+      (C01.Model.cs_insns (C01.Theory4.expected (X12.BridgeDefs.tr_body chs exf_body None)
+          (X12.BridgeFramesEq.with_tframes (X12.BridgeDefs.tr_tables (X12.BridgeDefs.T_of chs exf_body None) exf_tables 0 []) [0; 2; 3]%nat)))
+  = [Some 0; None; Some 1; Some 2]%nat.
+Proof. exact X12.BridgeFramesEq.frames_eq_example. Qed.
+Print Assumptions C02_bridge_write_read_frames_example.
